@@ -86,10 +86,13 @@ func knownKeys() map[string]bool {
 }
 
 type failure struct {
-	def    int
-	key    string
-	msg    string
-	detail string
+	def     int
+	key     string
+	msg     string
+	detail  string
+	kind    string  // problem kind of the failing (variant) definition
+	feature string  // feature or row the failure is attributed to
+	culprit gen.Def // the failing single-cause variant (or the definition itself)
 }
 
 func keyOf(kind string, d gen.Def, feature string) string {
@@ -120,7 +123,8 @@ func attribute(tl gen.Tools, outs []gen.Outcome, probs []gen.Problem) ([]failure
 		}
 		cs := gen.Candidates(outs[i].Def)
 		if len(cs) == 1 {
-			fails = append(fails, failure{i, keyOf(p.Kind, outs[i].Def, strings.TrimPrefix(cs[0].Key, "row:")), p.Msg, p.Detail})
+			name := strings.TrimPrefix(cs[0].Key, "row:")
+			fails = append(fails, failure{i, keyOf(p.Kind, outs[i].Def, name), p.Msg, p.Detail, p.Kind, name, outs[i].Def})
 			continue
 		}
 		for _, c := range cs {
@@ -184,17 +188,21 @@ func attribute(tl gen.Tools, outs []gen.Outcome, probs []gen.Problem) ([]failure
 			names = append(names, name)
 			if vp := vprobs[k]; vp.Kind != "" {
 				found = true
-				fails = append(fails, failure{i, keyOf(vp.Kind, cands[k].c.Def, name),
-					vp.Msg + " [single-cause variant of definition " + fmt.Sprint(i) + ": " + gen.DefJSON(cands[k].c.Def) + "]", vp.Detail})
+				fails = append(fails, failure{i, keyOf(vp.Kind, cands[k].c.Def, name), vp.Msg, vp.Detail, vp.Kind, name, cands[k].c.Def})
 			}
 		}
 		if !found {
 			// nothing fails on its own: the failure needs the combination
+			if len(use) > 0 && len(feats) == 0 && outs[i].Analysis.Twins {
+				// a legal definition whose rows pass one by one and that uses two
+				// reply types of one base name
+				names = []string{"same-base-name-types"}
+			}
 			sort.Strings(names)
 			if len(names) > 4 {
 				names = append(names[:4], "…")
 			}
-			fails = append(fails, failure{i, keyOf(kind, outs[i].Def, strings.Join(names, "&")), p.Msg, p.Detail})
+			fails = append(fails, failure{i, keyOf(kind, outs[i].Def, strings.Join(names, "&")), p.Msg, p.Detail, kind, "", outs[i].Def})
 		}
 	}
 	return fails, nil
@@ -227,6 +235,9 @@ func classesOf(o gen.Outcome, p gen.Problem) []string {
 	}
 	if a.Hostile {
 		cl = append(cl, "hostile-name")
+	}
+	if a.Twins {
+		cl = append(cl, "same-base-name-types")
 	}
 	if len(o.Def.File.Services) > 1 {
 		cl = append(cl, "two-services")
@@ -329,9 +340,19 @@ func run(c Case) vt.Verdict {
 		}
 		return vt.Verdict{OK: true, NonTrivial: nontrivial, Classes: classes}
 	}
+	// for the report: the smallest definition that still fails this way
+	runs := 1
+	if f.kind == "nondeterministic" {
+		runs = 3
+	}
+	minimal := f.culprit
+	if f.feature != "" {
+		minimal = gen.Minimise(tl, f.culprit, f.kind, f.feature, runs)
+	}
 	return vt.Verdict{OK: false, Key: f.key, Classes: classes,
-		Msg:     fmt.Sprintf("definition %d (%s): %s", f.def, outs[f.def].Analysis.Label, f.msg),
-		History: map[string]any{"failing_keys": allKeys, "detail": f.detail, "outcomes": outs}}
+		Msg: fmt.Sprintf("definition %d of the batch (%s): %s [smallest failing variant: %s]", f.def, outs[f.def].Analysis.Label, f.msg, gen.DefJSON(minimal)),
+		History: map[string]any{"failing_keys": allKeys, "detail": f.detail, "outcomes": outs,
+			"minimal_case": Case{Defs: []gen.Def{minimal}}}}
 }
 
 func inlineKnown() bool {
@@ -396,7 +417,15 @@ func TestHistogram(t *testing.T) {
 		for _, f := range fails {
 			hist["key:"+f.key]++
 			if _, ok := keys[f.key]; !ok {
-				keys[f.key] = f.msg + " DETAIL " + f.detail + " DEF " + gen.DefJSON(outs[f.def].Def)
+				runs := 1
+				if f.kind == "nondeterministic" {
+					runs = 3
+				}
+				minimal := f.culprit
+				if f.feature != "" {
+					minimal = gen.Minimise(tl, f.culprit, f.kind, f.feature, runs)
+				}
+				keys[f.key] = f.msg + " DETAIL " + f.detail + " MINIMAL " + gen.DefJSON(minimal)
 			}
 		}
 	}
